@@ -24,6 +24,12 @@ theorem fact_shelves : Facts.C08.xorShelf = "xorBucket" ∧ Facts.C08.ibltShelf 
 theorem fact_load_empty_resets : Facts.C08.loadEmptyResets = true := by decide
 /-- the `OnRollback` hook of `state.Add` reloads with a context of its own, not the (possibly cancelled) caller's -/
 theorem fact_rollback_reload_context : Facts.C08.rollbackReloadContexts = ["context.Background()"] := by decide
+/-- `state.Add` holds `addMutex` from before its write transaction until after the commit (first `AfterCommit`) or, on
+    failure, until its rollback handler has reloaded the trees (`defer`): write transaction + handler are one atomic step,
+    which is what the model's `add` is. (go-stoabs releases its own write lock before it calls the handlers.) -/
+theorem fact_add_critical_section :
+    Facts.C08.addMutexCalls = ["s.addMutex.Lock"] ∧ Facts.C08.addFirstAfterCommit = ["unlock"] ∧
+    "unlock()" ∈ Facts.C08.addDefers := by decide
 /-- `state.Add` runs under the write lock with a rollback hook -/
 theorem fact_add_tx_options :
     "stoabs.OnRollback" ∈ Facts.C08.addTxOptions ∧ "stoabs.WithWriteLock" ∈ Facts.C08.addTxOptions := by decide
@@ -500,6 +506,29 @@ def cfgBeforeLoadFix : Cfg := { pageSize := 512, loadEmptyResets := false }
 theorem first_write_rollback_defect_before_fix :
     let s := (add cfgBeforeLoadFix (State.init cfgBeforeLoadFix : State NB) exRoot { commitFails := true }).1
     s.disk.txs = [] ∧ (xorAt s 0).1 = 7 ∧ (specUpTo xorOps 512 (refClocks s.disk.txs) 0) = 0 := by
+  decide
+
+/-- the state in the window the store used to leave open: the write transaction of `Add tx` has been rolled back (disk
+    as before) but its rollback handler has not reloaded the trees yet (memory as `updateState` left it) -/
+def rolledBackNotReloaded (s : State NB) (tx : Tx) : State NB :=
+  match s.disk.graphAdd tx with
+  | .ok d => { updateState s d tx with disk := s.disk }
+  | _ => s
+
+def exSibling : Tx := { ref := 12, clock := 1, prevs := [7] }
+
+/-- **The schedule the missing critical section allowed** (before the repair of `state.Add`): root stored; `Add exChild`
+    fails at commit; `Add exSibling` runs inside the window; then the late reload. The stored set is {root, sibling}, but
+    the XOR digest still contains the rolled-back ref — also after a restart, because the sibling's write persisted the
+    stale leaf. With the handler inside the critical section (`fact_add_critical_section`) this interleaving cannot
+    occur and every schedule is a sequence of atomic `add` steps (`Reachable`). Witness replayed on the real code:
+    harness/corpus/C08/state-rollback-reload-race.jsonl. -/
+theorem rollback_reload_race_defect_before_fix :
+    let s1 := (add cfg (State.init cfg : State NB) exRoot {}).1
+    let s2 := (add cfg (rolledBackNotReloaded s1 exChild) exSibling {}).1
+    let s3 := restart cfg (rollback cfg s2)
+    s3.disk.txs.map (·.ref) = [7, 12] ∧ (xorAt s3 5).1 = 7 ^^^ 9 ^^^ 12 ∧
+    specUpTo xorOps cfg.pageSize (refClocks s3.disk.txs) 5 = 7 ^^^ 12 := by
   decide
 
 /-! ### the `uint32` bound -/
